@@ -8,6 +8,7 @@ use crate::model::data::*;
 use crate::model::optable;
 use crate::model::pipeline::*;
 use crate::model::stream::*;
+use crate::model::value::V;
 use crate::model::valuepool;
 use garnish_lang_compiler::lex::TokenType;
 use garnish_lang_runtime::{SimpleRuntimeState, execute_current_instruction};
@@ -62,6 +63,17 @@ fn frame_depth<D: GD + Clone>(d: &D) -> usize {
 
 /// Step the program; after every step the change of the operand count must equal the instruction's abstract effect.
 pub fn run_dynamic<D: GD + Clone>(d: &mut D, ext: &Extent, frames_in_registers: bool, max_steps: usize) -> DynReport {
+    run_dynamic_with(d, ext, frames_in_registers, max_steps, None)
+}
+
+/// the input value identifiers are looked up in on the second dynamic run: names bound to unit, a number, a list and an
+/// expression, so that a look-up that succeeds (also with a unit value) is exercised, not only the one that asks the host
+pub fn binding_input() -> V {
+    use crate::model::value::{pair, sym};
+    V::List(vec![pair(sym("a"), V::Unit), pair(sym("b"), V::Int(5)), pair(sym("k"), V::List(vec![V::Int(1), V::Int(2)])), pair(sym("u"), V::Unit), pair(sym("f"), V::Int(7)), V::Int(9)])
+}
+
+pub fn run_dynamic_with<D: GD + Clone>(d: &mut D, ext: &Extent, frames_in_registers: bool, max_steps: usize, input: Option<&V>) -> DynReport {
     let mut rep = DynReport { faults: vec![], steps: 0, finished: false, max_operands: 0, paths: 0 };
     let start = match d.get_from_jump_table(ext.entry) {
         Some(s) => s,
@@ -71,9 +83,15 @@ pub fn run_dynamic<D: GD + Clone>(d: &mut D, ext: &Extent, frames_in_registers: 
         return rep;
     }
     let reg0 = d.get_register_len() as i64;
-    let unit = match d.add_unit() {
-        Ok(u) => u,
-        Err(_) => return rep,
+    let unit = match input {
+        None => match d.add_unit() {
+            Ok(u) => u,
+            Err(_) => return rep,
+        },
+        Some(v) => match crate::model::value::build_value(d, v) {
+            Ok(a) => a,
+            Err(_) => return rep,
+        },
     };
     let v0 = value_depth(d);
     if d.push_value_stack(unit).is_err() {
@@ -300,6 +318,7 @@ pub fn judge(input: &str, ctx: &mut CaseCtx, dynamic_steps: usize) -> Option<(i6
         ctx.class(k);
     }
     let mut result = None;
+    let has_identifier = tokens.iter().any(|t| matches!(t.get_token_type(), garnish_lang_compiler::lex::TokenType::Identifier | garnish_lang_compiler::lex::TokenType::PrefixIdentifier | garnish_lang_compiler::lex::TokenType::SuffixIdentifier | garnish_lang_compiler::lex::TokenType::InfixIdentifier));
     for imp in Impl::BOTH {
         ctx.sub_evals += 1;
         let (stat, dynr, stream_text) = match imp {
@@ -309,7 +328,17 @@ pub fn judge(input: &str, ctx: &mut CaseCtx, dynamic_steps: usize) -> Option<(i6
                     Ok((ext, _)) => {
                         let (_depths, sf) = absint(&d, &ext);
                         let text = render_stream(&d, &ext);
-                        let dr = if dynamic_steps > 0 { Some(run_dynamic(&mut d, &ext, true, dynamic_steps)) } else { None };
+                        let mut dr = if dynamic_steps > 0 { Some(run_dynamic(&mut d, &ext, true, dynamic_steps)) } else { None };
+                        if has_identifier && dr.as_ref().map(|r| r.faults.is_empty()).unwrap_or(false) {
+                            // once more with an input that binds the usual names
+                            let mut d2 = new_simple();
+                            if let Ok((ext2, _)) = build_with_extent(&mut d2, &parsed, false) {
+                                let r2 = run_dynamic_with(&mut d2, &ext2, true, dynamic_steps, Some(&binding_input()));
+                                if !r2.faults.is_empty() {
+                                    dr = Some(r2);
+                                }
+                            }
+                        }
                         (Some(sf), dr, text)
                     }
                     Err(_) => (None, None, String::new()),
@@ -321,7 +350,16 @@ pub fn judge(input: &str, ctx: &mut CaseCtx, dynamic_steps: usize) -> Option<(i6
                     Ok((ext, _)) => {
                         let (_depths, sf) = absint(&d, &ext);
                         let text = render_stream(&d, &ext);
-                        let dr = if dynamic_steps > 0 { Some(run_dynamic(&mut d, &ext, false, dynamic_steps)) } else { None };
+                        let mut dr = if dynamic_steps > 0 { Some(run_dynamic(&mut d, &ext, false, dynamic_steps)) } else { None };
+                        if has_identifier && dr.as_ref().map(|r| r.faults.is_empty()).unwrap_or(false) {
+                            let mut d2 = new_basic();
+                            if let Ok((ext2, _)) = build_with_extent(&mut d2, &parsed, false) {
+                                let r2 = run_dynamic_with(&mut d2, &ext2, false, dynamic_steps, Some(&binding_input()));
+                                if !r2.faults.is_empty() {
+                                    dr = Some(r2);
+                                }
+                            }
+                        }
                         (Some(sf), dr, text)
                     }
                     Err(_) => (None, None, String::new()),
@@ -368,7 +406,7 @@ impl Check for C06Check {
             "Same corpus as C04/C05 (every sequence of up to L token classes x 3 separators, level-representative operator triples, token soups, random deeper expressions; inputs containing the bare terminator `;;` excluded as the statement says) plus {} reapply-loop programs x iteration counts {:?}. \
              Static oracle: abstract interpretation of the built stream over all paths (bodies entered at relative depth 0): one operand depth per instruction, never negative, exactly 1 at EndExpression. \
              Dynamic oracle: the program is stepped (<= 3000 steps) on both data implementations with a shadow call stack; after every step the change in the number of pending operands must equal the instruction's abstract effect, every EndExpression must execute with exactly one pending operand in its frame, \
-             no underflow error may occur, and when the program ends operand stack, input-value stack and frame chain are back at their initial depths; for the reapply programs the maximum operand depth must not depend on the iteration count. \
+             (programs that mention an identifier are run a second time with an input that binds the usual names to unit, a number and a list) no underflow error may occur, and when the program ends operand stack, input-value stack and frame chain are back at their initial depths; for the reapply programs the maximum operand depth must not depend on the iteration count. \
              Non-trivial = source contains a conditional or logical jump; distinct = distinct inputs.",
             REAPPLY_FAMILY.len(),
             REAPPLY_COUNTS
